@@ -1078,8 +1078,12 @@ impl<'a> Stepper<'a> {
             }
         }
         while self.worker_items() {}
-        // a blocked close() needs the stop rendezvous
+        // a blocked close() needs the stop rendezvous (and, should it stop the policy worker first, that one's)
         if self.blocked.iter().any(|b| b.kind == "close") {
+            if !self.rig.worker.exited() && self.rig.worker.step_stop(Duration::from_millis(20)) {
+                self.emit("w.stop", "ok=1");
+                self.reap(50);
+            }
             self.proc_stop(500);
         }
         self.reap(50);
@@ -1091,6 +1095,28 @@ impl<'a> Stepper<'a> {
         self.insert_finish();
         self.drain();
         self.reap(300);
+        // a closer may be waiting for the policy worker before it has asked the processor for anything (the
+        // order of the steps inside close() is the implementation's business): serve whichever worker has
+        // something to do until nobody makes progress any more, and only then call what is left a hang
+        for _ in 0..4 {
+            if self.blocked.is_empty() {
+                break;
+            }
+            let mut progress = false;
+            if !self.rig.worker.exited() && self.rig.worker.step_stop(Duration::from_millis(200)) {
+                self.emit("w.stop", "ok=1");
+                progress = true;
+            }
+            let before = self.blocked.len();
+            self.drain();
+            self.reap(300);
+            if self.blocked.len() < before {
+                progress = true;
+            }
+            if !progress {
+                break;
+            }
+        }
         let left: Vec<Blocked> = std::mem::take(&mut self.blocked);
         for b in left {
             // a call still blocked now has nobody left to release it
